@@ -142,6 +142,9 @@ def decimal_lexical_rules(ctx, rule):
 
 
 
+XS_ = 'sdc11073.xml_types.xml_structure'
+
+
 def run(ctx):  # noqa: C901, PLR0912
     repo = ctx.repo
     ctx.rule('C18.R1', 'no int() truncation of a scaled value in any converter to_xml')
@@ -262,6 +265,19 @@ def run(ctx):  # noqa: C901, PLR0912
     decimal_lexical_rules(ctx, 'C18.R5')
     from . import common
     common.implied_value_only_for_none(ctx, 'C18.R3')
+    # every scalar that is written goes through its converter - also the elements of list attributes (the samples of a
+    # waveform are xsd:decimal values: str() would write exponent notation and skip the digit limit)
+    for q_, meth, wanted in ((f'{XS_}._AttributeListBase', 'update_xml_value', 'elem_to_xml'),
+                             (f'{XS_}._AttributeListBase', 'get_py_value_from_node', 'elem_to_py'),
+                             (f'{XS_}._AttributeBase', 'update_xml_value', 'to_xml'),
+                             (f'{XS_}._AttributeBase', 'get_py_value_from_node', 'to_py')):
+        fi_ = repo.resolve_method(q_, meth)
+        uses = fi_ is not None and any(isinstance(n, ast.Attribute) and n.attr == wanted and '_converter' in unparse(n.value)
+                                       for n in ast.walk(fi_.node))
+        ctx.ob('C18.R3', f'{q_.rsplit(".", 1)[1]}.{meth} converts through the converter', uses,
+               f'{q_.rsplit(".", 1)[1]}.{meth} passes every value through self._converter.{wanted}' if uses else
+               f'{q_.rsplit(".", 1)[1]}.{meth} does not call self._converter.{wanted}: the values of this kind of attribute '
+               f'by-pass the converter of their data type (decimals in exponent notation, unbounded digits)', fi=fi_)
     # lexical space of xs:dateTime: the end-of-day form 24:00:00 admits only zeros as fraction (parse_date_time drops the
     # fraction of that form, so anything else would be coerced instead of rejected) - decided on the parsed pattern
     import re as _re
